@@ -309,6 +309,10 @@ def _no_negative_shortcut(run, P, rule="C08.mapper"):
             conds = path_conditions(f.node, r)
             neg = [t for t, pol in conds if t.startswith("isinstance(") and pol is False]
             pos = [t for t, pol in conds if pol is True]
+            if neg and not pos and any(w in t for t in neg for w in ("tuple", "list", "ndarray", "Sequence",
+                                                                     "Iterable")):
+                raise AnalysisError(f"{C.name}.{name}: the negative type test names container types; "
+                                    "whether it names all that the dispatch descends into is not read")
             n += 1
             run.ob(rule, f, r, not (neg and not pos),
                    construct=f"{C.name}.{name}: the empty set is returned for named kinds of values "
